@@ -68,10 +68,10 @@ UNIT = dict(
         ]),
         "Hedge::call@Service": dict(rules=[
             ("R4",),
-            ("sub", "R3-call", r"execute_with_hedging\(inner, req, config\)\.await", "execute_with_hedging(inner, req, config, clk, Tracked(tr))", 1),
+            ("sub", "R3-call", r"execute_with_hedging\((\w+), req, config\)\.await", r"execute_with_hedging(\1, req, config, clk, Tracked(tr))", 1),
         ]),
         "Hedge::clone@Clone": dict(),
-        "HedgeDelay::get_delay": dict(file="config", rules=[("sub", "R10-fn-call", r"\bf\(attempt\)", "f.vx_call(attempt)", 1)]),
+        "HedgeDelay::get_delay": dict(file="config", rules=[("sub", "R10-fn-call", r"(?<![\w.:])([a-z_]\w*)\(attempt\)", r"\1.vx_call(attempt)", 1)]),
         "Hedge::poll_ready@Service": dict(rules=[("R10p", "HedgeError::Inner")]),
     },
     types=[
